@@ -556,7 +556,7 @@ pub fn run(args: &Args) -> Report {
         ks: if thorough { vec![0, 1, 2] } else { vec![0, 1] },
         env: 0,
         fault: 2,
-        total_wall: Duration::from_secs(if thorough { 1800 } else { 55 }),
+        total_wall: Duration::from_secs(if thorough { 1800 } else { 100 }),
         max_execs_per_case: 20_000_000,
         required_witnesses: W_SECOND_FAULT | W_LATE_OPS | W_BUDGET_YIELD | W_FAULT_TAKEN | W_FAULT_WITH_BLOCKED_WRITER | W_FAULT_WITH_PENDING_OPEN | W_FAULT_WITH_PENDING_BIND | W_DROP_FLUSHED_DATA | W_BROKEN_PIPE | W_CLOSED_SEEN,
         adaptive: thorough,
